@@ -117,7 +117,7 @@ func C01(c *fw.Ctx) {
 		c.HarnessError("grammar: " + err.Error())
 		return
 	}
-	fullLen, redLen, exprLen := 4, 6, 8
+	fullLen, redLen, exprLen := 4, 5, 8
 	if !c.Quick() {
 		fullLen, redLen, exprLen = 5, 7, 9
 	}
@@ -150,6 +150,16 @@ func C01(c *fw.Ctx) {
 	})
 	walkTokens(c, exprAlphabet(), exprLen, func(tc tokCase) {
 		if len(tc.Syms) > redLen {
+			visit(tc)
+		}
+	})
+	stmtLen := 8
+	if !c.Quick() {
+		stmtLen = 10
+	}
+	c.Bound("statement_alphabet_max_tokens", stmtLen)
+	walkTokens(c, stmtAlphabet(), stmtLen, func(tc tokCase) {
+		if len(tc.Syms) > fullLen {
 			visit(tc)
 		}
 	})
